@@ -3,10 +3,11 @@
 //   mode checked|unchecked          must name the build (ADEPT_BOUNDS_CHECKING defined or not)
 //   parent rm|cm d0 d1 ...          fresh Array<r,int>, r = 1..6, filled with its own cell numbers
 //   aparent rm|cm d0 d1 ...         fresh ACTIVE Array<r,double,true>, r = 1..3 (its views stay active)
-//   fparent d0 ...                  FixedArray<int,false,d0,...>: 4 | 3 4 | 3 3 | 2 3 4; the first successful
+//   fparent d0 ...                  FixedArray<int,false,d0,...>: 4 | 3 4 | 3 3 | 2 3 4 | 2 3 4 5; the first successful
 //                                   operation is FixedArray's own member and returns an Array<r,int>
 //   slice A0 A1 ...                 A = i:E | r:E,E | s:E,E,E | _
 //                                   E = k | eK (`end - K`) | end | (E+E) (E-E) (E*E) (E/E) (E>E: max) (E<E: min)
+//                                   (only scalar arguments: ELEMENT access, every argument passed as written, int or end-k)
 //   subset E E ...  | idx E | T | permute p.. | diag k | subdiag b e | reshape d.. | softlink
 //   cslice, csubset, cidx, cT, csoftlink, cix: the same member called through a const reference (const overload)
 //   contig                          is_contiguous()
@@ -16,6 +17,8 @@
 // operator()(int...)) and every cell of the parent allocation that no longer holds its own number is listed
 // (and restored).  Active views: also gradient_index() - parent.gradient_index() must equal the data offset
 // (`o=<data>!g<gradient>` otherwise); an active element (rank 0) is located through its gradient index.
+// A view of rank >= 1 held by an Array is then exercised through the library's whole-view operations (fields f= a= b= x=
+// v= m= h= n=, see drv_views_w.h).
 //
 // Views of different rank are different C++ types: a small class hierarchy V<AR> holds them and the
 // argument types of operator() are chosen by a recursive template (SliceDisp).  To bound the number
@@ -40,12 +43,12 @@ VIEWS_DEFINE_RANK(3)
 struct Parents {
   Array<1,int>* p1; Array<2,int>* p2; Array<3,int>* p3; Array<4,int>* p4; Array<5,int>* p5; Array<6,int>* p6;
   Array<1,double,true>* a1; Array<2,double,true>* a2; Array<3,double,true>* a3;
-  Fix1* f1; Fix2* f2; Fix2s* f2s; Fix3* f3;
-  Parents() : p1(0), p2(0), p3(0), p4(0), p5(0), p6(0), a1(0), a2(0), a3(0), f1(0), f2(0), f2s(0), f3(0) {}
+  Fix1* f1; Fix2* f2; Fix2s* f2s; Fix3* f3; Fix4* f4;
+  Parents() : p1(0), p2(0), p3(0), p4(0), p5(0), p6(0), a1(0), a2(0), a3(0), f1(0), f2(0), f2s(0), f3(0), f4(0) {}
   void clear() {
     delete p1; delete p2; delete p3; delete p4; delete p5; delete p6; delete a1; delete a2; delete a3;
-    delete f1; delete f2; delete f2s; delete f3;
-    p1 = 0; p2 = 0; p3 = 0; p4 = 0; p5 = 0; p6 = 0; a1 = 0; a2 = 0; a3 = 0; f1 = 0; f2 = 0; f2s = 0; f3 = 0;
+    delete f1; delete f2; delete f2s; delete f3; delete f4;
+    p1 = 0; p2 = 0; p3 = 0; p4 = 0; p5 = 0; p6 = 0; a1 = 0; a2 = 0; a3 = 0; f1 = 0; f2 = 0; f2s = 0; f3 = 0; f4 = 0;
     g_pdata = 0; g_adata = 0; g_vol = 0;
   }
 };
@@ -99,13 +102,13 @@ int main() {
     }
     if (w[0] == "fparent") {
       std::vector<int> d(w.size() - 1);
-      bool ok = w.size() >= 2 && w.size() <= 4;
+      bool ok = w.size() >= 2 && w.size() <= 5;
       for (size_t k = 0; ok && k < d.size(); ++k) ok = parse_int(w[k + 1], d[k]);
       VBase* nv = 0;
       if (ok) {
         delete cur; cur = 0;
         par.clear();
-        nv = make_fixed(d, par.f1, par.f2, par.f2s, par.f3);
+        nv = make_fixed(d, par.f1, par.f2, par.f2s, par.f3, par.f4);
       }
       if (!nv) { std::cout << "bad-op\n"; continue; }
       cur = nv;
